@@ -459,6 +459,9 @@ func runC19(c *Check) {
 		}
 		c.MinInstances("C19-R8", 2)
 	}
+	c.Doc("C19-R9", "CT: the key file is written by replacing the whole file (os.WriteFile, os.Create, or OpenFile with O_TRUNC/O_EXCL): an import over a longer file must not leave its tail behind.")
+	ruleWritersReplaceWholeFile(c, p, "C19-R9", []string{filePkg}, 1,
+		"importing a key over a longer existing key file leaves the old tail after the new JSON object; the import reports success, the old key is destroyed and the new file cannot be loaded")
 	c.Doc("C19-R5", "VP+EO: a buffer is zeroed outside a defer only after the last use of every value that may alias it.")
 	ruleWipeAfterLastUse(c, p, keyFns)
 	c.MinInstances("C19-R1", 1)
